@@ -10,7 +10,7 @@ the calendar (Date then rightly raises ValueError); for an accepted text any oth
 model must equal the text, the concatenation of the store's tokens must equal the text, and every sub-model must print
 exactly the slice it spans (spans from token lengths), nested and ordered.
 """
-from symx.env import NoTracing, check, Fail, NATIVE, pick, R, known_finding
+from symx.env import NoTracing, check, Fail, NATIVE, pick, R, known_finding, print_model, set_load_factor
 from symx import parseenv, lexenv, docenv
 from symx.parseenv import build
 from autobean_refactor import models, parser as parser_lib
@@ -18,6 +18,7 @@ from autobean_refactor import models, parser as parser_lib
 M = models
 P = lexenv.PARSER
 MAXCP = 0x10FFFF
+LF = int(__import__('os').environ.get('SYMX_C01_LF', '2'))
 
 
 def date_out_of_calendar(e):
@@ -25,6 +26,7 @@ def date_out_of_calendar(e):
 
 
 def check_parse(s, target, acc):
+    set_load_factor(LF)      # the parsed document spans many store blocks (block boundaries every 2-3 tokens)
     try:
         m = P.parse(s, target, auto_claim_comments=acc)
     except Exception as e:
@@ -33,7 +35,7 @@ def check_parse(s, target, acc):
         if date_out_of_calendar(e):
             return None      # a DATE lexeme without a meaning (month 13, year 0, ...)
         raise Fail('parse() raised on a text the grammar accepts: %r' % (e,))
-    out = ''.join(t.raw_text for t in m.tokens)
+    out = print_model(m)                   # the real printer
     whole = ''.join(t.raw_text for t in m.token_store)
     check(whole == s, 'concatenation of the store differs from the input', R(whole), R(s))
     if out != s and outer_trivia_only(m) and known_finding('C01-single-model-target-outer-trivia'):
@@ -78,6 +80,11 @@ def check_parse(s, target, acc):
         return a, b
 
     span(m, type(m).__name__)
+    # reading the document (printing it, asking sub-models for their tokens) must not have disturbed it
+    again = print_model(m)
+    check(again == out, 'printing the model a second time gives a different text', R(again), R(out))
+    whole2 = ''.join(t.raw_text for t in m.token_store)
+    check(whole2 == s, 'the store no longer concatenates to the input after the document was printed', R(whole2))
     return m
 
 
@@ -94,13 +101,19 @@ def outer_trivia_only(m):
         return bool(outside) and all((not t.raw_text) or isinstance(t, (M.Whitespace, M.Newline, M.BlockComment, M.InlineComment, M.Indent)) for t in outside)
 
 
-def make_hole(tname, target_name, pos, nh, restrict=None, twin=False):
+def make_hole(tname, target_name, pos, nh, restrict=None, twin=False, restrict0=None):
     text = TEMPLATES[tname]
     pre, post = text[:pos], text[pos:]
     target = getattr(M, target_name)
 
     def cell(c0: int, c1: int, acc: bool) -> None:
         assert 0 <= c0 <= MAXCP and 0 <= c1 <= MAXCP
+        if restrict0 is not None:       # in-token holes: the free character ranges over a small alphabet only
+            ok0 = False
+            for ch in restrict0:
+                ok0 = ok0 | (c0 == ord(ch))
+            if not ok0:
+                return
         if restrict is not None:
             ok = False
             for ch in restrict:
@@ -113,7 +126,7 @@ def make_hole(tname, target_name, pos, nh, restrict=None, twin=False):
         if twin and m is not None:
             raise Fail('twin reached the assertion point')
 
-    return 'hole_%s_%s_p%02d_n%d%s' % (tname, target_name, pos, nh, '_twin' if twin else ''), cell
+    return 'hole_%s_%s_p%02d_n%d%s%s' % (tname, target_name, pos, nh, '_r' if restrict0 else '', '_twin' if twin else ''), cell
 
 
 def make_whole(n, target_name, twin=False):
@@ -139,9 +152,10 @@ TEMPLATES = {
     'posting': '  Assets:A  1 USD\n    kk: 1',
     'crlf': 'option "a" "b"\r\n\r\n',
     'icmt': '2000-01-01 *\n  Assets:A\n  ; ic\n',
+    'ign': '; c\n* h',
 }
 TARGETS = {'open': ['File', 'Open'], 'txn': ['File', 'Transaction'], 'txn2': ['File'], 'two': ['File'], 'cmt': ['File'], 'posting': ['Posting'],
-           'crlf': ['File'], 'icmt': ['File']}
+           'crlf': ['File'], 'icmt': ['File'], 'ign': ['File', 'IgnoredLine']}
 
 
 def hole_positions(text):
@@ -164,7 +178,7 @@ def _reg(name_fn, tiers, timeout, family, bounds, twin=False, cost=None):
 
 
 Q, T = ('quick', 'thorough'), ('thorough',)
-QUICK_HOLES = {'open': [0, 10, 25], 'txn': [12, 13, 24], 'cmt': [0, 4], 'posting': [0, 19], 'crlf': [14, 15, 18], 'two': [10, 11, 12], 'icmt': [24, 26, 31]}
+QUICK_HOLES = {'open': [0, 10, 25], 'txn': [12, 13, 24], 'cmt': [0, 4], 'posting': [0, 19], 'crlf': [14, 15, 18], 'two': [10, 11, 12], 'icmt': [24, 26, 31], 'ign': [4]}
 for _t, _text in TEMPLATES.items():
     for _target in TARGETS[_t]:
         for _pos in hole_positions(_text):
@@ -174,6 +188,12 @@ for _t, _text in TEMPLATES.items():
         for _pos in hole_positions(_text)[::3]:
             _reg(make_hole(_t, _target, _pos, 2, restrict=' \t\r\n;'), {'C01': T}, 1800, 'hole2',
                  'template %r parsed as %s with 2 code points at offset %d: first free (full Unicode), second from {SP,TAB,CR,LF,;}' % (_text, _target, _pos))
+IN_TOKEN = ' \t\r\n;x*#"'
+for _t, _text in TEMPLATES.items():
+    for _target in TARGETS[_t]:
+        for _pos in range(len(_text) + 1):
+            _reg(make_hole(_t, _target, _pos, 1, restrict0=IN_TOKEN), {'C01': Q if _target == TARGETS[_t][0] or _t == 'ign' else T}, 900, 'hole1r',
+                 'template %r parsed as %s with 1 code point from the alphabet %r inserted at offset %d (every offset, inside tokens too)' % (_text, _target, IN_TOKEN, _pos), cost=15)
 for _n in (0, 1, 2):
     for _target in ('File', 'Posting', 'MetaItem', 'NumberExpr', 'CostSpec', 'Open'):
         _reg(make_whole(_n, _target), {'C01': Q if _n <= 1 else T}, 900 if _n <= 1 else 3300, 'whole', 'every text of %d code points (full Unicode) parsed as %s' % (_n, _target), cost=20 * 40 ** _n)
@@ -186,7 +206,8 @@ FILES = ['autobean_refactor/parser.py', 'autobean_refactor/beancount.lark', 'aut
 ENCODES = ['autobean_refactor/parser.py: Parser.parse/_parse, PostLex.process, ModelBuilder.* (all methods)', 'autobean_refactor/printer.py: print_model',
            'autobean_refactor/models/*: from_raw_text/_parse_value of every token class reached, from_parsed_children, auto_claim_comments',
            'lark: contextual lexer + LALR driver (pure Python) with re replaced by symre on the grammar\'s own terminal regexes']
-STUBS = ['lark Scanner.match: same terminal regexes in lark\'s order, interpreted by symx.symre (validated against re at every run); PostLex split regex likewise',
+STUBS = ['TokenStore load factor set to 2 (module globals): every parsed document spans many store blocks',
+         'lark Scanner.match: same terminal regexes in lark\'s order, interpreted by symx.symre (validated against re at every run); PostLex split regex likewise',
          'lark ParserState.feed_token / InteractiveParser.choices run untraced (they read only concrete token types)',
          'CrossHair Decimal port with its numeral regex interpreted by symre (any template containing a number)',
          'a text is "accepted" iff no lark exception is raised and every DATE lexeme is inside the calendar']
